@@ -19,7 +19,7 @@ TRUSTED = ["Lean 4 kernel", "axioms: propext, Quot.sound, Classical.choice (at m
 ASSUMPTIONS = ["crashes happen between system calls (a write(2) of a few bytes to a regular file is not torn)"]
 RULE = ("seeded (query, groups, mode) cases: outfile with/without append, interim/final, pre-existing outfile absent / empty / earlier result, "
         "0..4 groups, order/rorder/limit, count/sum/min/max/last columns; every case runs the real WriteResult under strace; kill cases "
-        "deliver SIGKILL at an operation boundary and check the surviving files; non-trivial = mode tags")
+        "deliver SIGKILL at an operation boundary and check the surviving files; non-trivial = mode tags; c15.seq: interim writes and the final write of one run on one Query value (append: header once, rows once per write)")
 
 
 def groups_arg(rng, sels, n):
